@@ -284,10 +284,13 @@ impl GenerationPass for AvailableValuePass {
 
                 rule_expand_address_for_load(&node.node(), &mut out_reg_n, &node.reg_values_in());
                 rule_value_from_stack(&node.node(), &mut out_reg_n, &node.memory_values_in());
+                // (what memory holds when the load executes: the facts on
+                // entry, computed above - not the out-facts, which at this
+                // point are still those of the previous sweep or run)
                 rule_pull_value_from_csr_memory(
                     &node.node(),
                     &mut out_reg_n,
-                    &node.memory_values_out(),
+                    &node.memory_values_in(),
                 );
                 rule_zero_to_const(
                     &mut out_reg_n,
